@@ -1,5 +1,44 @@
-"""Run the Rust proptest runner (E2) and merge its results into a Reporter. (filled in later)"""
+"""Run the Rust proptest runner (E2: rsprop inside the mirror crate) and merge its results into a Reporter."""
+import json
+import subprocess
+import time
+
+from vlib import build, core
+
+PROP_OF = {"C15": "c15", "C16": "c16", "C17": "c17", "C02": "c02"}
 
 
-def run_rs_part(rep, tier, pid):
-    return
+def run_rs_part(rep, tier, pid, required=False):
+    """required=True: a harness that cannot be built makes the whole check inconclusive (C15/C16, which have no
+    complete E1 counterpart); otherwise the E2 part is reported as unavailable and the verdict comes from E1."""
+    t0 = time.time()
+    try:
+        bins = build.ensure_mirror()
+    except build.BuildError as e:
+        if required:
+            raise
+        rep.parts["E2"] = {"status": "unavailable", "reason": "mirror harness does not build against this tree: %s" % str(e)[-400:]}
+        print("[%s] E2 part unavailable (harness does not build); verdict from E1 only" % pid)
+        return
+    cmd = [bins["rsprop"], PROP_OF[pid], tier, str(rep.seed)]
+    p = subprocess.run(cmd, stdout=subprocess.PIPE, stderr=subprocess.PIPE, text=True, env=build.run_env())
+    line = p.stdout.strip().splitlines()[-1] if p.stdout.strip() else ""
+    try:
+        r = json.loads(line)
+    except ValueError:
+        if p.returncode < 0 or p.returncode > 2:
+            # the runner itself died (abort / signal): library code crashed outside catch_unwind
+            rep.violation("e2-runner-crash:%d" % p.returncode, {"cmd": cmd}, "rsprop terminated abnormally (status %d): %s" % (p.returncode, p.stderr[-800:]))
+            return
+        raise core.Inconclusive("rsprop produced no result (status %d): %s" % (p.returncode, p.stderr[-400:]))
+    rep.evaluations += r["evaluations"]
+    rep.nontrivial_extra += r["distinct_nontrivial"]
+    for k, v in r["classes"].items():
+        rep.classes["E2:" + k] = rep.classes.get("E2:" + k, 0) + v
+    for s in r["samples"][:4]:
+        if len(rep.nt_samples) < 8:
+            rep.nt_samples.append({"engine": "E2/proptest", "case": s[:600]})
+    rep.parts["E2"] = {"status": "ran", "evaluations": r["evaluations"], "distinct_nontrivial": r["distinct_nontrivial"], "wall_s": round(time.time() - t0, 1)}
+    if r.get("failure"):
+        f = r["failure"]
+        rep.violation(f["signature"], {"engine": "E2", "prop": PROP_OF[pid], "case": f["case"][:4000], "seed": rep.seed, "tier": tier}, f["message"])
